@@ -117,7 +117,7 @@ def _extract(cfg, repo, crate, out):
     sys.stderr.write("[extract] %s facts in %.1fs -> %s\n" % (cfg, time.time() - t0, out))
 
 
-def _prune(keep=8):
+def _prune(keep=24):
     fs = sorted(glob.glob(os.path.join(CACHE, "facts", "*.jsonl")), key=os.path.getmtime, reverse=True)
     for f in fs[keep:]:
         try:
